@@ -22,6 +22,7 @@ def kind_cap(bk, size):
 
 class Case:
     def __init__(self, name, layout):
+        assert tuple(layout) in LAYOUTS, "no element family for layout %r in the harness" % (layout,)
         self.name = name; self.size, self.align, self.drop = layout
         self.lines = []; self.nvec = 0; self.tags = set()
     def add(self, line, fault=None):
